@@ -87,8 +87,8 @@ class _StoreZip(Store):
 
         with zipfile.ZipFile(self._fp) as zf:
             for name in zf.namelist():
-                if strip_ext:
-                    name = name.replace(self._EXT_CONTAINED, '')
+                if strip_ext and name.endswith(self._EXT_CONTAINED):
+                    name = name[:-len(self._EXT_CONTAINED)]
                 # always use default decoder
                 yield config_map.default.label_decode(name)
 
